@@ -87,7 +87,8 @@ def scan():
                     for node in ast.walk(fnode):
                         if isinstance(node, (ast.Assign, ast.AugAssign, ast.AnnAssign)):
                             tg = node.targets if isinstance(node, ast.Assign) else [node.target]
-                            if any(isinstance(t, ast.Attribute) and isinstance(t.value, ast.Name) and t.value.id in params for t in tg):
+                            if any(isinstance(t, ast.Attribute) and isinstance(t.ctx, ast.Store) and isinstance(t.value, ast.Name) and t.value.id in params
+                                   for t0 in tg for t in ast.walk(t0)):
                                 first = node.lineno if first is None else min(first, node.lineno)
                     if first is not None:
                         for sub in ast.walk(fnode):
